@@ -5,6 +5,9 @@ import Mdsort.Proofs.WorldStdinExample
 import Mdsort.Proofs.EvalErrProp
 import Mdsort.Proofs.EvalAtt
 import Mdsort.Proofs.ExecStatus
+import Mdsort.Proofs.WorldFuelConform
+import Mdsort.Proofs.EvalPFail
+import Mdsort.Proofs.WorldIndependent
 
 /-!
 # C04 - the exit status tells the truth (MDA contract, error isolation)
@@ -91,7 +94,7 @@ example :
         { files := [([47, 109, 47, 110, 101, 119], [49], [83, 117, 98, 106, 101, 99, 116, 58, 32, 120, 10, 10, 98, 10])],
           error := false, reject := false, log := [] }) 0 []).2.map (·.1)) =
       [.openRd 3 [49], .read 7, .unlinkat 3 [49], .close 7] := by
-  simp only [processMessage, eval]
+  simp only [processMessage, evalP, evalTop, evalT, eval]
   decide +kernel
 
 /-- **Error isolation.**  In a walk, when `readdir` returns the name `n` (not `.` or `..`), the run is
@@ -130,6 +133,94 @@ theorem C04_error_flag_inert (env : PEnv) (orc : EvalOracles) (expr : Expr) (fue
       (processMessage env orc expr md name st).bind (fun x => pure ({ x.1 with error := b || x.1.error }, x.2)) :=
   ⟨Proofs.Own.walk_setErr env orc expr fuel md st b, Proofs.Own.processMessage_setErr env orc expr md name st b⟩
 
+/-! ## No hidden state: what is done for a message does not depend on the messages before it (package ce14)
+
+`C04_error_flag_inert` says that the error FLAG left by earlier messages is never looked at.  The statements below say it of
+the whole loop state `MainSt` - the flags, the `-d` log and every entry of the registry `files` except the one the message
+itself reads, `st.files.get md.path name` (its content) - and of the position in the run.  `Proofs.MsgEffect`
+(Proofs/WorldIndependent.lean) is what a message contributes: an error bit, a reject bit, its `-d` lines and where its own file
+is afterwards; `e.apply dir name st` or-s the bits into the flags of `st`, appends the lines and replaces the entry
+`(dir, name)`.  They are what makes the metamorphic oracle of `tools/isolation.py` (the outcome for a message in a run over a
+whole population = its outcome in a run on that message alone) a consequence of the model rather than an assumption. -/
+
+/-- **`processMessage` has no hidden state.**  `processMessage`, regarded as a function of the loop state, factors through the
+one entry the message reads: there is a program `q` over effects - depending on the configuration, the maildir and the name,
+NOT on the state - such that from every state `st` the program is `q (st.files.get md.path name)` followed by applying the
+effect to `st`; the maildir is returned as it was.  So the calls issued for a message (for all call results) and its
+contribution to the error / reject flags and to the log are a function of (configuration, maildir, name, content, results of
+its own calls), whatever earlier messages left in `MainSt`.  (The witness is `Proofs.messageEffect`; `C04_error_flag_inert`
+for `processMessage` is the special case of two states that differ in the error flag.) -/
+theorem C04_message_independent (env : PEnv) (orc : EvalOracles) (expr : Expr) (md : Maildir) (name : Bytes) :
+    ∃ q : Option Bytes → Prog Proofs.MsgEffect, ∀ st : MainSt,
+      processMessage env orc expr md name st =
+        (q (st.files.get md.path name)).bind fun e => Prog.ret (e.apply md.path name st, md) :=
+  ⟨Proofs.messageEffect env orc expr md name, fun st => Proofs.processMessage_effect env orc expr md name st⟩
+
+/-- **Independence of the runs** (the form the isolation stage uses).  Take two runs of `processMessage` for the same message:
+from ANY two loop states that agree on the message's own entry (`hfile`), at ANY two positions (next call index `i` / `i'`,
+trace so far `tr` / `tr'` - e.g. after k earlier messages, and alone), against ARBITRARY call results that agree on the
+message's own calls (`hres`: the `k`-th call of the one run gets the result of the `k`-th call of the other).  Then both runs
+issue the same calls with the same results, and both change their loop state by the same effect `e`: the same error bit, the
+same reject bit, the same `-d` lines, the same new place and content of the file.  `hfile` is where an earlier message CAN
+reach a later one: only by changing the entry `(md.path, name)` itself, i.e. by being moved to exactly that directory and name
+(`C04_message_effect_frame`) - known finding F21 and a destination that is walked later. -/
+theorem C04_message_independent_runs (env : PEnv) (orc : EvalOracles) (expr : Expr) (md : Maildir) (name : Bytes)
+    (st st' : MainSt) (hfile : st.files.get md.path name = st'.files.get md.path name)
+    (orcl orcl' : Nat → Call → Res) (i i' : Nat) (tr tr' : List (Call × Res))
+    (hres : ∀ k c, orcl (i + k) c = orcl' (i' + k) c) :
+    ∃ (e : Proofs.MsgEffect) (calls : List (Call × Res)),
+      runOracle orcl (processMessage env orc expr md name st) i tr = ((e.apply md.path name st, md), tr ++ calls) ∧
+      runOracle orcl' (processMessage env orc expr md name st') i' tr' = ((e.apply md.path name st', md), tr' ++ calls) :=
+  Proofs.processMessage_independent env orc expr md name st st' hfile orcl orcl' i i' tr tr' hres
+
+/-- The maildir, message and two loop states of the non-vacuity examples: `match all discard` on the message `1` of `/m/new`;
+the second state is what earlier messages may have left: another registered file, the error flag, a `-d` line. -/
+def indepMd : Maildir :=
+  { root := [47, 109], path := [47, 109, 47, 110, 101, 119], dirH := some 3, subdir := .new, walk := true, stdin := false }
+def indepMsg : Bytes := [83, 117, 98, 106, 101, 99, 116, 58, 32, 120, 10, 10, 98, 10]
+def indepSt : MainSt := { files := [(indepMd.path, [49], indepMsg)], error := false, reject := false, log := [] }
+def indepSt' : MainSt :=
+  { files := [([47, 120], [50], [65]), (indepMd.path, [49], indepMsg)], error := true, reject := false, log := [[49]] }
+def indepOrcl : Nat → Call → Res := fun _ c => match c with | .read _ => .ok 0 | _ => .ok 7
+
+/-- Non-vacuity of `C04_message_independent_runs`: the two states differ (flag, log, another entry) and agree on the message's
+own entry; the results agree on the message's own calls (the run alone starts at call 0, the other at call 17). -/
+example :
+    indepSt.files.get indepMd.path [49] = indepSt'.files.get indepMd.path [49] ∧ indepSt.error ≠ indepSt'.error ∧
+    indepSt.log ≠ indepSt'.log ∧ (∀ k c, indepOrcl (0 + k) c = indepOrcl (17 + k) c) :=
+  ⟨by decide +kernel, by decide, by decide, fun _ _ => rfl⟩
+
+/-- ... and what the theorem then gives for them: the same four calls (`openat`, `read`, `unlinkat` of the message's own name,
+`close`, cf. the example under `C04_isolation_calls`), appended to whatever went before, and one effect for both states. -/
+example (tr' : List (Call × Res)) :
+    ∃ (e : Proofs.MsgEffect) (calls : List (Call × Res)),
+      runOracle indepOrcl (processMessage Proofs.examplePEnv Proofs.exampleOracles (.mtch 1 (.all 1) (.discard 1)) indepMd [49]
+        indepSt) 0 [] = ((e.apply indepMd.path [49] indepSt, indepMd), [] ++ calls) ∧
+      runOracle indepOrcl (processMessage Proofs.examplePEnv Proofs.exampleOracles (.mtch 1 (.all 1) (.discard 1)) indepMd [49]
+        indepSt') 17 tr' = ((e.apply indepMd.path [49] indepSt', indepMd), tr' ++ calls) :=
+  C04_message_independent_runs _ _ _ indepMd [49] indepSt indepSt' (by decide +kernel) indepOrcl indepOrcl 0 17 [] tr'
+    (fun _ _ => rfl)
+
+/-- **What an effect does to the other entries of the registry.**  Applying a message's effect leaves `files.get d' n'`
+unchanged for every `(d', n')` other than the message's own entry and the place its file was taken to.  With
+`C04_message_independent_runs`: the entry a LATER message reads - hence everything done for it - is the initial one unless an
+earlier message was moved to exactly that directory and name. -/
+theorem C04_message_effect_frame (dir name : Bytes) (e : Proofs.MsgEffect) (st : MainSt) (d' n' : Bytes)
+    (hown : ¬ (d' = dir ∧ n' = name))
+    (hdst : ∀ x, e.file = some (some x) → ¬ (d' = x.1 ∧ n' = x.2.1)) :
+    (e.apply dir name st).files.get d' n' = st.files.get d' n' :=
+  Proofs.MsgEffect.apply_files_frame dir name e st d' n' hown hdst
+
+/-- Non-vacuity: the effect "moved to `/d/new` as `8`" of the message `1` of `/m/new` and the entry `2` of `/m/new`. -/
+example :
+    let e : Proofs.MsgEffect := ⟨false, false, [], some (some ([47, 100, 47, 110, 101, 119], [56], indepMsg))⟩
+    ¬ (indepMd.path = indepMd.path ∧ ([50] : Bytes) = [49]) ∧
+    (∀ x, e.file = some (some x) → ¬ (indepMd.path = x.1 ∧ ([50] : Bytes) = x.2.1)) := by
+  refine ⟨by decide, ?_⟩
+  intro x hx
+  cases hx
+  decide
+
 /-! ## Where the error flag comes from
 
 `Proofs.Own.runO orcl p i` is `runOracle` without the accumulator: the value of `p`, the calls it
@@ -138,8 +229,11 @@ issued, and the index of the next call (`Proofs.Own.runOracle_eq`). -/
 /-- **One message.**  After processing a message the flag is the flag before or-ed with the
 message's own error bit `Proofs.msgError` (Proofs/WorldFrameErr.lean): the file is unknown to the
 model, `message_parse` failed (open/read failure, over-long path or name, invalid flag suffix), the
-rules' verdict is an evaluation error or an interpolation failure, or - not in a dry run - the action
-list reported an error. -/
+rules' verdict IN THIS RUN is an evaluation error or an interpolation failure, or - not in a dry run - the action
+list reported an error.  Evaluation is part of the run (`Model.evalP`): the verdict is `Proofs.evVerdict` of the value
+`evalP` returns on the results `orcl` gives to its calls, so the evaluation errors include the conditions the operating
+system could not answer - `C04_evaluation_failure_is_error`, `C04_command_failure_causes`, `C04_date_stat_failure`,
+`C04_message_error_of_eval_error` below. -/
 theorem C04_message_error_iff (env : PEnv) (orc : EvalOracles) (expr : Expr) (md : Maildir) (name : Bytes) (st : MainSt)
     (orcl : Nat → Call → Res) (i : Nat) (tr : List (Call × Res)) :
     (runOracle orcl (processMessage env orc expr md name st) i tr).1.1.error =
@@ -162,9 +256,12 @@ theorem C04_walk_error_iff (env : PEnv) (orc : EvalOracles) (expr : Expr) (fuel 
 of the next step; the theorem therefore says: the flag is the disjunction of the enumerated top-level causes and of the error
 values of the sub-programs, nothing is swallowed in between and nothing else sets it.  It does not by itself say which libc
 failures make `matchesExec` / `messageParseP` report an error - that is `C01_fault_reported` and the `All`-lemmas on the
-scripts.  Fuel: the walks inside are `walk .. (2n+8)` / `walk .. 64`; an oracle whose `readdir` keeps returning names makes the
-MODEL stop silently when the fuel is spent (no cause `WalkErr` for that), where mdsort would go on - the statement is about
-the model's truncated walk in that case, the conformance run reports the divergence.)  The error flag `main` derives its exit status from is set iff one of the causes
+scripts.  Fuel (package p12): the walks inside are `walk .. (2n+8+env.extraFuel)` / `walk .. (64+env.extraFuel)`; an oracle whose
+`readdir` keeps returning names makes the MODEL stop when the fuel is spent, where mdsort would go on.  That is no longer
+silent: the final state then has `fuelOut = true`.  What is covered: the theorem holds for EVERY `env`, hence every
+allowance; for a run that ends with `fuelOut = false` it is a statement about the run of the unbounded loops
+(`C04_fuel_irrelevant`: the same run for every larger allowance); for a run that ends with `fuelOut = true` it is a
+statement about a truncation, which the conformance check reports as a divergence.)  The error flag `main` derives its exit status from is set iff one of the causes
 `Proofs.MainErr` (Proofs/WorldFrameMain.lean) occurred in this run: the configuration file cannot be
 opened; the configuration is not valid; or - unless `-n` - for some block and some selected path of
 it (`Proofs.PathsErr`, `Proofs.BlocksErr`): the stdin spool cannot be set up, the path or path +
@@ -187,9 +284,10 @@ example :
 
 /-- **Isolation of the calls of a whole run in maildir mode** (`-` not given): every call is a
 `readdir` or satisfies the frame condition for the name the last `readdir` returned (between walks
-only the configuration file, `opendir` and `closedir` are used).  (Audit au1: each walk inside `mainP` has fuel `2n+8`, `n` =
-registered files of the maildir; under an oracle that lists more entries than that the model's run is shorter than mdsort's.
-The walk-level statement `C04_isolation_calls` holds for EVERY fuel, so nothing is lost for the frame itself.) -/
+only the configuration file, `opendir` and `closedir` are used).  (Audit au1 / package p12: each walk inside `mainP` has fuel `2n+8+env.extraFuel`, `n` =
+registered files of the maildir; under an oracle that lists more entries than that the model's run is shorter than
+mdsort's - and then ends with `fuelOut = true`.  Covered: every `env` (every allowance); a run with `fuelOut = false` is the
+run of the unbounded loops (`C04_fuel_irrelevant`).  The walk-level statement `C04_isolation_calls` holds for EVERY fuel.) -/
 theorem C04_isolation_calls_main (env : PEnv) (orc : EvalOracles) (ok : Bool) (conf : List ConfBlock) (files : Files)
     (input : Bytes) (hm : env.stdinMode = false) (orcl : Nat → Call → Res) :
     ∀ i c r, (runOracle orcl (mainP env orc ok conf files input) 0 []).2[i]? = some (c, r) →
@@ -247,7 +345,7 @@ example : ∀ q, ((runPlan Plan.none (mainP Proofs.StdinExample.env0 Proofs.Stdi
   C04_stdin_spool_removed _ _ _ _ _ _ _ _ rfl rfl Proofs.StdinExample.ex_stdinExprs Proofs.StdinExample.ex_stdinIs
     Proofs.StdinExample.ex_fresh (fun _ _ => rfl)
 
-/-- Exit status 0 means stored (= `C02_stdin_exit0`). -/
+/-- Exit status 0 means stored (= `C02_stdin_exit0`; see there and `C02_stdin_exit0_stored`). -/
 theorem C04_stdin_zero_means_stored (env : PEnv) (orc : EvalOracles) (conf : List ConfBlock) (files : Files) (input : Bytes)
     (expr : Expr) (w : World) (plan : Plan) (hm : env.stdinMode = true) (hs : env.syntaxOnly = false)
     (hc : Proofs.World.stdinExprs conf = [expr]) (hin : Proofs.World.StdinIs w input)
@@ -631,8 +729,8 @@ example (st : ExecSt) :
 /-- **A `command` condition that cannot be run is an error, not "no match".**  When /dev/null cannot be opened, `fork` or
 `waitpid` fails, or the child exits with 127 (its `execvp` failed), the condition evaluates to ERROR - the verdict
 `C04_message_error_iff` turns into the error flag of the run - and the match list is untouched.  (Hypothesis `hrc`: the
-environment's command oracle is `exec()`, see `C13_status`; in `Model.processMessage` the oracle is still the constant -1,
-DESIGN 9.4.) -/
+environment's command oracle is `exec()`, see `C13_status`; inside the run of `Model.processMessage` the condition issues the
+calls itself and the oracle IS `exec()` on their results: `C04_command_failure_is_error_run` below.) -/
 theorem C04_command_failure_is_error (env : Env) (root : Msg) (lno : Nat) (argv av : List Bytes) (part : Nat) (m : Msg) (st : St)
     (hav : argv.mapM (interpolate st.ml none) = some av)
     (d : Bool) (f w : Res) (hrc : env.command av = Model.execValue d f w)
@@ -700,6 +798,96 @@ theorem C04_command_signal_is_error_false : ¬ C04_command_signal_is_error := by
   revert h1
   decide +kernel
 
+/-! ## Evaluation errors caused by the operating system
+
+`command`, `isdirectory` and the file-time `date` conditions ask the operating system while the rules are evaluated
+(`Model.evalP`, Model/EvalP.lean; `C03_evaluation_calls`).  `Proofs.FailAns tf q a`: the answer `a` to the question `q`
+is a failure - the value of `exec(argv, -1)` is negative (`command`), or `stat` of the message's path failed / `time_format`
+returned NULL (file-time `date`).  `isdirectory` has no failing answer: a path that cannot be stat'ed is not a directory
+(`expr_eval_stat`; the condition is false, nothing is reported). -/
+
+/-- **A question the operating system could not answer makes the evaluation an error, at once** - for every rule tree,
+wherever the condition stands in it (inside `and` / `or` / `!` / nested blocks / `attachment`), whatever the other
+calls return: if in the run of `evalP` the answer to question number `k` is a failure, the value is *error* and no
+further question is asked (`EXPR_ERROR` is passed up through every `expr_eval_*`). -/
+theorem C04_evaluation_failure_is_error (env : Env) (e : Expr) (m : Msg) (fl : MFlags)
+    (orcl : Nat → Call → Res) (i : Nat) (k : Nat) (q : Req) (a : SysAns)
+    (hq : (evalR env e m fl ((evalTop env e m fl).answers orcl i)).2[k]? = some q)
+    (ha : ((evalTop env e m fl).answers orcl i)[k]? = some a) (hF : Proofs.FailAns env.timeFormat q a) :
+    (Proofs.Own.runO orcl (evalP env e m fl) i).1.1 = .error ∧
+    (evalR env e m fl ((evalTop env e m fl).answers orcl i)).2.length = k + 1 :=
+  Proofs.evalP_error_of_fail env e m fl orcl i k q a hq ha hF
+
+/-- Non-vacuity: `match command "t" or all move "/d"` when `fork` fails: one question, a failing answer. -/
+example :
+    let e : Expr := .mtch 1 (.or 1 (.command 1 [[116]]) (.all 1)) (.move 1 [47, 100])
+    let env := Proofs.msgEnv Proofs.examplePEnv Proofs.exampleOracles [47, 109, 47, 110, 101, 119, 47, 49]
+    let m := parseMessage [83, 117, 98, 106, 101, 99, 116, 58, 32, 120, 10, 10, 98, 10]
+    let orcl : Nat → Call → Res := fun _ c => match c with | .fork => .err "EAGAIN" | _ => .ok 0
+    (evalTop env e m MFlags.empty).answers orcl 0 = [.status (-1)] ∧
+    (evalR env e m MFlags.empty [.status (-1)]).2 = [.command [[116]]] ∧
+    Proofs.FailAns env.timeFormat (.command [[116]]) (.status (-1)) ∧
+    (Proofs.Own.runO orcl (evalP env e m MFlags.empty) 0).1.1 = .error := by
+  simp only [evalP, evalR, evalTop, evalT, eval]
+  refine ⟨by decide +kernel, by decide +kernel, ?_, by decide +kernel⟩
+  show ((-1 : Int) < 0)
+  decide
+
+/-- **Which call results make a `command` condition fail**: its answer is the value of util.c `exec(argv, -1)` on the
+results of `open("/dev/null")`, `fork`, `waitpid` (`Model.execValue`), and that value is negative exactly when the child
+could not be run (`Proofs.childOutcome … = .cannotRun`: `/dev/null` cannot be opened, `fork` fails, `waitpid` fails -
+`C13_child_outcome`) or exited with status 127 (`execvp` failed).  Every other status - 0, another exit code, death by
+a signal - is match / no match, not an error (`C13_command_status`). -/
+theorem C04_command_failure_causes (av : List Bytes) (orcl : Nat → Call → Res) (j : Nat) :
+    (Proofs.Own.runO orcl (sysCall (.command av)) j).1 =
+      .status (match orcl j (.openPath (ofString "/dev/null")) with
+        | .ok _ => Model.execValue true (orcl (j + 1) .fork) (orcl (j + 2) .waitpid)
+        | _ => Model.execValue false (orcl (j + 1) .fork) (orcl (j + 2) .waitpid)) ∧
+    ∀ (d : Bool) (f w : Res), Model.execValue d f w < 0 ↔
+      Proofs.childOutcome d f w = .cannotRun ∨ Proofs.childOutcome d f w = .waited (.exited 127) :=
+  ⟨Proofs.sysCall_command_value av orcl j, Proofs.execValue_neg_iff⟩
+
+/-- **`C04_command_failure_is_error` inside the run** (its corollary through `Proofs.evalT_command_run`: the oracle of the
+evaluator-level statement IS `exec()` on the results of the three calls of this run): a `command` condition evaluated at
+step `j` of a run in which `/dev/null` cannot be opened, `fork` or `waitpid` fails, or the child exits with 127, evaluates to
+ERROR and leaves the match list as it was. -/
+theorem C04_command_failure_is_error_run (env : Env) (root : Msg) (lno : Nat) (argv av : List Bytes) (part : Nat) (m : Msg)
+    (st : St) (hav : argv.mapM (interpolate st.ml none) = some av) (orcl : Nat → Call → Res) (j : Nat)
+    (h : let o := Proofs.childOutcome (match orcl j (.openPath (ofString "/dev/null")) with | .ok _ => true | _ => false)
+            (orcl (j + 1) .fork) (orcl (j + 2) .waitpid)
+         o = .cannotRun ∨ o = .waited (.exited 127)) :
+    (Proofs.Own.runO orcl (evalT env root (.command lno argv) part m st).toProg j).1 = (.error, st) := by
+  rw [Proofs.evalT_command_run]
+  exact C04_command_failure_is_error _ root lno argv av part m st hav _ _ _ rfl h
+
+/-- **A failing `stat` of the message's path makes a file-time `date` condition fail**: the answer to the question is
+what `stat` returned, and a `stat` that does not succeed (`EACCES`, `EIO`, `ENOENT`: the message was removed meanwhile)
+is a failing answer. -/
+theorem C04_date_stat_failure (tf : Int → Option Bytes) (p : Bytes) (f : DateField) (orcl : Nat → Call → Res) (j : Nat) :
+    (Proofs.Own.runO orcl (sysCall (.fileTime p f)) j).1 = .stat (statAnswer (orcl j (.stat p))) ∧
+    ((∀ v, orcl j (.stat p) ≠ .ok v) → Proofs.FailAns tf (.fileTime p f) (.stat (statAnswer (orcl j (.stat p))))) :=
+  ⟨Proofs.sysCall_fileTime_value p f orcl j, Proofs.failAns_fileTime_of_stat_failed tf p f _⟩
+
+example : (∀ v, (Res.err "EACCES") ≠ .ok v) := fun _ h => by cases h
+
+/-- **... and an evaluation error is an error of that message** (`C04_message_error_iff`): if the message was parsed and
+the evaluation of the rules in this run says *error*, the message's error bit is set. -/
+theorem C04_message_error_of_eval_error (env : PEnv) (orc : EvalOracles) (expr : Expr) (md : Maildir) (name : Bytes)
+    (st : MainSt) (orcl : Nat → Call → Res) (i : Nat) (d : Handle) (content : Bytes) (ms : MsgSt)
+    (hd : md.dirH = some d) (hf : st.files.get md.path name = some content)
+    (hparse : (Proofs.Own.runO orcl (messageParseP d md.path name content) i).1 = some ms)
+    (hev : (Proofs.Own.runO orcl (Proofs.evalMs env orc expr ms)
+      (Proofs.Own.runO orcl (messageParseP d md.path name content) i).2.2).1.1 = .error) :
+    Proofs.msgError env orc expr md name st orcl i = true := by
+  unfold Proofs.msgError
+  simp only [hd, hf, hparse]
+  generalize (Proofs.Own.runO orcl (Proofs.evalMs env orc expr ms)
+    (Proofs.Own.runO orcl (messageParseP d md.path name content) i).2.2).1 = ev at hev ⊢
+  obtain ⟨t, est⟩ := ev
+  dsimp only at hev
+  subst hev
+  rfl
+
 /-! ## The command line (package ce13): exit statuses before the configuration is read -/
 
 /-- The exit status of a run from `argv`.  A refused command line (usage, `-D` errors) and a `readenv` / `defaultconf`
@@ -740,5 +928,62 @@ example :
     (parseArgs true ["-".toUTF8.toList]).toOption.map (·.stdinMode) = some true ∧
     (parseArgs true ["--".toUTF8.toList, "-".toUTF8.toList]).toOption.map (·.stdinMode) = some true := by
   decide +kernel
+/-! ## the fuel of the model's `readdir` loops (package p12; audit au1, W4)
+
+mdsort's loops over a directory are unbounded (`while ((ent = readdir(dir)))`); a `Prog` is a well-founded tree, so the
+model's `walk` (maildir: `2n+8`, spool: `64`) and `closeStdin.loop` (`64`) carry fuel, now plus the ghost `env.extraFuel`.
+Running out of fuel used to end the loop SILENTLY; it now sets `MainSt.fuelOut` (never cleared; `closeStdin` reports it),
+and the conformance check treats it as a divergence (`tools/world.py`, driver answer `FUELOUT`).
+
+Every theorem about `mainP` - for arbitrary call results: `C04_error_iff_partial`, `C04_isolation_calls_main`,
+`C05_dry_stdin`, `C13_fd_hygiene`, `C18_no_truncated_path`, ...; under fault plans: C01, C02, C05 - is quantified over `env`
+and therefore holds for every value of the allowance.  The theorems below say what that covers:
+
+* a run that ends with `fuelOut = false` is THE SAME RUN for every larger allowance (`C04_fuel_irrelevant*`): the theorem
+  speaks about the run of the unbounded loops;
+* along an observed trace, an allowance of the length of the trace always suffices (`C04_fuel_suffices_conform`) - the
+  driver uses exactly that allowance, so a `done` answer of the conformance check is never a truncated walk;
+* a run that ends with `fuelOut = true` is a truncation of mdsort's run (witness: `C01_fuel_can_run_out`). -/
+
+/-- **Arbitrary call results** (`orcl i c` = the result of the i-th call: every behaviour of the file system, of faults and
+of other parties): if the run of `mainP` ends with `fuelOut = false`, then for EVERY larger allowance `k` the run is the
+same - same exit status, same final state, same calls with the same results. -/
+theorem C04_fuel_irrelevant (env : PEnv) (orc : EvalOracles) (confOk : Bool) (conf : List ConfBlock) (files : Files)
+    (input : Bytes) (orcl : Nat → Call → Res) (k : Nat) (hk : env.extraFuel ≤ k)
+    (h : (runOracle orcl (mainP env orc confOk conf files input) 0 []).1.2.fuelOut = false) :
+    runOracle orcl (mainP { env with extraFuel := k } orc confOk conf files input) 0 [] =
+      runOracle orcl (mainP env orc confOk conf files input) 0 [] :=
+  Proofs.Fuel.fuel_irrelevant_oracle env orc confOk conf files input orcl k hk h
+
+/-- The same on the abstract file system under a fault plan (value, final world, the world after every call). -/
+theorem C04_fuel_irrelevant_plan (env : PEnv) (orc : EvalOracles) (confOk : Bool) (conf : List ConfBlock) (files : Files)
+    (input : Bytes) (plan : Plan) (w : World) (k : Nat) (hk : env.extraFuel ≤ k)
+    (h : (runPlan plan (mainP env orc confOk conf files input) w 0 []).1.2.fuelOut = false) :
+    runPlan plan (mainP { env with extraFuel := k } orc confOk conf files input) w 0 [] =
+      runPlan plan (mainP env orc confOk conf files input) w 0 [] :=
+  Proofs.Fuel.fuel_irrelevant_plan env orc confOk conf files input plan w k hk h
+
+/-- The same for the conformance walk along an observed trace: a `done` answer without `fuelOut` is the `done` answer for
+every larger allowance. -/
+theorem C04_fuel_irrelevant_conform (env : PEnv) (orc : EvalOracles) (confOk : Bool) (conf : List ConfBlock) (files : Files)
+    (input : Bytes) (w : World) (tr : List (Call × Res)) (k : Nat) (hk : env.extraFuel ≤ k)
+    (a : Nat × MainSt) (w' : World) (rest : List (Call × Res))
+    (hd : conform (mainP env orc confOk conf files input) w tr 0 = .done a w' rest) (h : a.2.fuelOut = false) :
+    conform (mainP { env with extraFuel := k } orc confOk conf files input) w tr 0 = .done a w' rest :=
+  Proofs.Fuel.fuel_irrelevant_conform env orc confOk conf files input w tr k hk hd h
+
+/-- **Along an observed trace an allowance of the length of the trace suffices** - for EVERY trace (results possible in
+the abstract file system or not): if `env.extraFuel ≥ |tr|` and the conformance walk ends (`done`), no loop of the model
+stopped for lack of fuel.  Bound: every iteration of a loop issues a call and a `done` walk consumes one element of the
+trace per call, so no loop makes more than `|tr|` iterations; the allowance is ADDED to the standard one. -/
+theorem C04_fuel_suffices_conform (env : PEnv) (orc : EvalOracles) (confOk : Bool) (conf : List ConfBlock) (files : Files)
+    (input : Bytes) (w : World) (tr : List (Call × Res)) (hlen : tr.length ≤ env.extraFuel)
+    (a : Nat × MainSt) (w' : World) (rest : List (Call × Res))
+    (hd : conform (mainP env orc confOk conf files input) w tr 0 = .done a w' rest) : a.2.fuelOut = false :=
+  Proofs.Fuel.fuel_suffices_conform env orc confOk conf files input w tr hlen hd
+
+/-- Non-vacuity of the hypotheses `fuelOut = false` / `hk` / `hlen`: `C01_fuel_can_run_out` (Props/C01.lean) evaluates a run
+that ends WITH the flag under the standard allowance and WITHOUT it under an allowance of 5; `0 ≤ 5`. -/
+example : Proofs.examplePEnv.extraFuel ≤ 5 ∧ ([] : List (Call × Res)).length ≤ Proofs.examplePEnv.extraFuel := ⟨by decide, by decide⟩
 
 end Mdsort.Props
